@@ -6,7 +6,7 @@ correspond: (1) model vs the real `pretty` crate on random documents x widths, c
                 corpus files, layout/comment mutations of them, generated programs; 8 widths x 2 indent sizes.
 decide:     failures inside the open class-shaped findings of known_findings.jsonl -> KNOWN-FINDING; anything else -> VIOLATION.
 """
-import os, json, collections
+import os, sys, json, collections
 from vlib import *
 
 MODULES = ["Mimium.Props.C14"]
@@ -70,11 +70,15 @@ def attribute(row, known_by_class):
     ncfg = row.get("configs", NCFG)
     for kind, fl in by_kind.items():
         if kind == "comment-lost":
-            k = known_by_class.get("comment-after-delimiter")
+            # per lost comment: its position key `<preceding token kind>@<owning CST node>` must be one of the positions
+            # that lose comments on the pinned tree; a comment lost anywhere else is a new failure
+            k = known_by_class.get("comment-at-dropping-delimiter")
             for f in fl:
-                if k and all(c.split(">")[0] in k["prev_tokens"] for c in f.get("lost_ctx", ["?"])):
+                keys = [c.split(">")[0] for c in f.get("lost_pos", ["?"])]
+                if k and keys and all(c in k["positions"] for c in keys):
                     known[k["id"]] += 1
                 else:
+                    f = dict(f, new_positions=sorted(set(c for c in keys if not k or c not in k["positions"])))
                     new.append(f)
             continue
         anyk = [known_by_class[c] for c in classes if c in known_by_class and kind in known_by_class[c].get("kinds_any", [])]
@@ -158,6 +162,21 @@ def main(ctx, args):
         jobs = [("files", ["files", REPO, str(k), str(shards), str(ctx.seed), str(nmut)]) for k in range(shards)]
         jobs += [("gen", ["gen", str(ctx.seed * 1000 + k), str(ngen)]) for k in range(shards)]
         jobs += [("docs", ctx.seed * 1000 + k, ndocs) for k in range(8)]
+        # systematic comment insertion: one comment per token gap x {block, line} x {same line, own line}, 4 configurations
+        ggen = 12 if not thorough else 150
+        gmax = 4 if not thorough else 0          # gaps sampled per shipped file (0 = every gap)
+        jobs += [("gaps-gen", ["gaps-gen", str(ctx.seed * 1000 + k), str(ggen)]) for k in range(shards)]
+        jobs += [("gaps-files", ["gaps-files", REPO, str(k), str(shards), str(ctx.seed), str(gmax)]) for k in range(shards)]
+        sys.path.insert(0, os.path.join(VERIF, "tools", "gen"))
+        import coregen, re
+        ncg = 4 if not thorough else 40
+        for k in range(shards):
+            lines = []
+            for i in range(ncg):
+                prog, _, _ = coregen.make_case(ctx.seed, k * ncg + i, "core")
+                # parameter annotations belong to an open finding class (C14-typed-param): strip them
+                lines.append(json.dumps({"id": f"coregen/{ctx.seed}/{k * ncg + i}", "src": re.sub(r":float", "", prog.src())}))
+            jobs.append(("gaps-texts", ["gaps-texts", str(ctx.seed * 1000 + k), "24" if not thorough else "0"], "\n".join(lines) + "\n"))
         jobs += [("nlrule", ctx.seed * 1000 + k, 20000 if not thorough else 200000) for k in range(4)]
 
         def work(job):
@@ -165,7 +184,7 @@ def main(ctx, args):
                 return ("docs",) + run_docs(ctx, job[1], job[2])
             if job[0] == "nlrule":
                 return ("nlrule",) + run_nl(ctx, job[1], job[2])
-            p = mmh("C14", job[1])
+            p = mmh("C14", job[1], input=job[2] if len(job) > 2 else None)
             if p.returncode != 0:
                 return ("crash", {"kind": "harness-crash", "stream": " ".join(job[1]), "stderr": p.stderr[-2000:]})
             return ("rows", [json.loads(l) for l in p.stdout.split("\n") if l.strip()])
@@ -190,11 +209,39 @@ def main(ctx, args):
     new_fail = []
     samples = []
     nontrivial = set()
+    pos_all, pos_lost = collections.Counter(), collections.Counter()
     for r in rows:
         o = r.get("origin", "?").split(":")[0]
         if "skip" in r:
             stats["skipped_" + r["skip"]] += 1
             continue
+        if o == "gaps-summary":
+            origin_hist["gap-variant"] += r["variants"]
+            stats["texts"] += r["variants"]
+            stats["evaluations"] += r["evaluations"]
+            stats["gap_bases"] += 1
+            stats["gap_sites_probed"] += r["sites_probed"]
+            stats["skipped_gap-variant-invalid"] += r["variants_invalid"]
+            if r["variants_two_layouts"]:
+                nontrivial.add((r["id"], r["bytes"], r["variants_two_layouts"]))
+                stats["gap_variants_two_layouts"] += r["variants_two_layouts"]
+            pos_all.update(r["pos_all"])
+            pos_lost.update(r["pos_lost"])
+            continue
+        if o == "gap":
+            # failing variants of the systematic insertion are reported as rows of their own; they are already counted
+            # (texts, evaluations, positions) in the summary row of their base text
+            if r.get("fails"):
+                stats["texts_failing"] += 1
+                for f in r["fails"]:
+                    kind_hist[f["kind"]] += 1
+                kn, new = attribute(r, known_by_class)
+                known_hits.update(kn)
+                if new:
+                    new_fail.append((r, new))
+            continue
+        pos_all.update(r.get("pos_all", {}))
+        pos_lost.update(r.get("pos_lost", {}))
         origin_hist[o] += 1
         stats["texts"] += 1
         stats["evaluations"] += r.get("configs", 0)
@@ -249,6 +296,14 @@ def main(ctx, args):
     if not proved and not new_fail:
         ctx.violation("proof obligation broken: " + "; ".join(ctx._broken), {"stage": "prove", "theorems": ctx._broken,
                       "lake": getattr(ctx, "_lake_errors", "")}, found_input=False)
+    f14 = known_by_class.get("comment-at-dropping-delimiter")
+    if f14 and not args.replay:
+        kept = sorted(k for k in f14["positions"] if pos_all.get(k, 0) > 0 and pos_lost.get(k, 0) < pos_all[k])
+        unseen = sorted(k for k in f14["positions"] if pos_all.get(k, 0) == 0)
+        if kept:
+            ctx.notes.append("positions listed in F14 where some comment was KEPT this run (class may be narrowed): " + ", ".join(kept))
+        if unseen:
+            ctx.notes.append("positions listed in F14 not exercised this run: " + ", ".join(unseen))
     for k in known:
         n = known_hits.get(k["id"], 0)
         if n or args.replay is None:
@@ -256,7 +311,7 @@ def main(ctx, args):
     ctx.coverage.update({
         "evaluations": stats["evaluations"] + doc_cases + nl_cases,
         "distinct_nontrivial": len(nontrivial) + len(doc_nontriv) + len(nl_nontriv),
-        "rule": "program cases: one evaluation = one (source text, width, indent) with all four checks (parse, AST, comments, fixed point); "
+        "rule": "program cases: one evaluation = one (source text, width, indent) with all four checks (parse, AST, comments, fixed point); gap-insertion variants (one comment in one token gap of a class-free text, 4 kinds) count as texts with 4 configurations each; "
                 "non-trivial = the text was formatted to at least two different outputs across the 16 configurations (layout really depends on width/indent), distinct by id; "
                 "parser cases: one evaluation = one (token-class sequence, line-break placement) parsed by the real parser and the newline-rule model, non-trivial = error-free with at least one line break, distinct by (classes, breaks); "
                 "document cases: one evaluation = one (document, width) rendered by the real crate and the model; non-trivial = output contains a line break, distinct by (width, tree)",
@@ -272,6 +327,9 @@ def main(ctx, args):
         "document_cases": doc_cases,
         "document_cases_nontrivial": len(doc_nontriv),
         "widths": [1, 8, 20, 40, 50, 80, 120, 1000000], "indents": [2, 4],
+        "gap_insertion": {"base_texts": stats["gap_bases"], "gaps_probed": stats["gap_sites_probed"], "variants_with_two_layouts": stats["gap_variants_two_layouts"],
+                          "configs": [[1, 2], [20, 4], [80, 4], [1000000, 2]]},
+        "comment_positions(lost/total)": {k: f"{pos_lost.get(k, 0)}/{v}" for k, v in sorted(pos_all.items()) if v > 0},
         "input_distribution": {"origin": dict(origin_hist), "texts_in_known_classes": dict(class_hist),
                                "failure_kinds(text,config)": dict(kind_hist),
                                "skipped": {k[8:]: v for k, v in stats.items() if k.startswith("skipped_")},
